@@ -26,12 +26,21 @@ C13_TOPOS = {
     "E_chain3_self": scenarios.CATALOGUE["E_chain3_self"],
     "T_to_H_trigger": scenarios.CATALOGUE["T_to_H_trigger"],
     "weak_loop": scenarios.CATALOGUE["weak_loop"],
+    # every outgoing connection of the producer is time-shifted
+    "shift2_only_T": dict(until=4, sims=[T("A"), T("B")],
+                          conns=[C("A", "B", "po", "mi", shift=2, init=True)]),
+    "shift2_only_E": dict(until=4, sims=[E("A", init_event=0, next=[1, 1, 1], emit_default=0), E("B")],
+                          conns=[C("A", "B", "eo", "ti", shift=2)]),
 }
 C14_TOPOS = {
     "chain_TT": dict(until=2, sims=[T("A"), T("B")], conns=[C("A", "B", "po", "mi")]),
     "fan_TET": dict(until=2, sims=[T("A"), E("B", emit_default=0), E("Z")],
                     conns=[C("A", "B", "po", "ti"), C("B", "Z", "eo", "ti")]),
     "indep3": dict(until=2, sims=[T("A"), T("B"), T("X")], conns=[C("A", "B", "po", "mi")]),
+    # an in-process simulator of an old API version (requests pass through the version adapters)
+    "chain_old": dict(until=2, sims=[T("A", cls="Ver_kw_opt", api_version="2.2"),
+                                     T("B", cls="Ver_none_a2", api_version="2")],
+                      conns=[C("A", "B", "po", "mi")]),
     # an agent with a request of its own to mosaik (get_data for an attribute that is not in
     # the cache, so that mosaik has to ask A) -- the fault can hit while that is outstanding
     "async_agent": dict(until=2, sims=[H("A", next_default=1),
@@ -102,7 +111,7 @@ def c13_post(x, fault):
 
 
 # ---- C14 ---------------------------------------------------------------------------------------
-FAULT_KINDS_LOCAL = ["raise", "raise_type", "raise_conn"]
+FAULT_KINDS_LOCAL = ["raise", "raise_type", "raise_value", "raise_conn"]
 FAULT_KINDS_MEM = ["raise", "close", "die", "die_after"]
 
 
@@ -145,6 +154,9 @@ def inject(run, stub, f):
         # exception types that mosaik itself handles around a request (TypeError: JSON
         # serialisation diagnosis in SimRunner.step) must not make a simulator's failure vanish
         raise TypeError(f"injected TypeError in {stub.sid}")
+    if kind == "raise_value":
+        # ... nor ValueError (unpacking of malformed request tuples in the version adapters)
+        raise ValueError(f"injected ValueError in {stub.sid}")
     if kind == "raise_conn":
         raise ConnectionAbortedError(f"injected ConnectionError in {stub.sid}")
     ch = getattr(stub, "_mem_channel", None)
@@ -293,6 +305,11 @@ def _work(job):
     post = (lambda x: c13_post(x, fault)) if prop == "C13" else (lambda x: c14_post(x, fault))
     old = Run.inject_fault
     Run.inject_fault = lambda self, stub, f: inject(self, stub, f)
+    import contextlib
+    import io
+    import sys
+    quiet = contextlib.redirect_stdout(io.StringIO())     # (mosaik_api_v3 prints deprecation notes)
+    quiet.__enter__()
     try:
         try:
             r = explorer.explore(scen, cfg, budget=budget, max_exec=cap, post=post,
@@ -306,6 +323,7 @@ def _work(job):
         import traceback
         return dict(error=repr(e)[:300] + traceback.format_exc()[-800:], name=name)
     finally:
+        quiet.__exit__(None, None, None)
         Run.inject_fault = old
     r.update(name=name, scen=scen, cfg=cfg, fault=fault)
     return r
@@ -417,6 +435,11 @@ def check(prop, tier):
                 jobs.append((prop, name + "/silent-writes", scen, fault,
                              dict(lazy=True, cache=True, transport="mem", lost_write="silent", **fg),
                              d, 4000))
+            if fault["kind"] in ("raise", "die", "close"):
+                # debug mode wraps the scheduler's functions
+                jobs.append((prop, name + "/debug", scen, fault,
+                             dict(lazy=True, cache=True, debug=True, transport=fault["transport"]),
+                             0, 2000))
     rep = findings.Reporter(prop)
     tot = dict(execs=0, states=0, trans=0, merges=0, capped=0, jobs=0)
     outcomes = {}
